@@ -98,8 +98,6 @@ func c47Msg(c c47MsgCase, m counters) (findings, *tape) {
 		return out, &tape{}
 	}
 	msg, tp := buildMsg(c.Type, c.Tape)
-	// exclusion by construction of the recorded defect shapes (counted), so the search goes on behind them
-	m["excluded_known"] += int64(repairKnown(msg))
 	tn := typeName(msg)
 	in := func() string { return fmt.Sprintf("type=%s tape=%x value=%s", c.Type, c.Tape, dumpMsg(msg)) }
 	vals := validators(msg)
@@ -270,11 +268,7 @@ var parserTargets = map[string]parserFn{
 				acc++
 			}
 		})
-		if chainIDOverflowShape(s) {
-			m["excluded_known"]++ // recorded finding sigParseChainID; re-demonstrated by its deterministic sub-case
-		} else {
-			noPanic(out, "clienttypes.ParseChainID", in, func() { clienttypes.ParseChainID(s) })
-		}
+		noPanic(out, "clienttypes.ParseChainID", in, func() { clienttypes.ParseChainID(s) })
 		noPanic(out, "clienttypes.SetRevisionNumber", in, func() { _, err := clienttypes.SetRevisionNumber(s, n); acc += okIf(err) })
 		return acc
 	},
@@ -715,7 +709,7 @@ func parserSeeds() map[string][][]byte {
 func genC47Parser(t *rapid.T) c47ParserCase {
 	c := c47ParserCase{Target: rapid.SampledFrom(parserTargetNames).Draw(t, "target"), N: vx.U64().Draw(t, "n")}
 	if rapid.IntRange(0, 80).Draw(t, "known-demo") == 37 {
-		// deterministic re-demonstration of one recorded finding
+		// deterministic regression case of one fixed defect
 		return c47ParserCase{Target: "known-demo", N: uint64(rapid.IntRange(0, len(c47Demos)-1).Draw(t, "demo"))}
 	}
 	seeds := parserSeeds()[c.Target]
